@@ -182,6 +182,20 @@ Theorem vec_filter_pointwise : forall (Ops : NumOps) (wp wv : T Ops) ops sts k d
     = g_run Ops (point_filter Ops wp wv) (nth k sts d) (map (vop_at Ops k) ops).
 Proof. exact vec_run_pointwise. Qed.
 
+(* ... the same for distance(): element k is the point filter's distance computed from element k's OWN state
+   (own projected covariance, own Cholesky factor), whatever the other elements of the vector are - in particular
+   when the elements have different histories - and for the cost conversion. *)
+Theorem vec_distance_pointwise : forall (Ops : NumOps) (wp wv : T Ops) (sqrtT : T Ops -> T Ops) sts pts k d dz,
+    length pts = length sts -> (k < length sts)%nat ->
+    length (vec_distance Ops sqrtT wp wv sts pts) = length sts /\
+    nth k (vec_distance Ops sqrtT wp wv sts pts) dz
+    = g_distance Ops (point_filter Ops wp wv) sqrtT (nth k sts d) (nth k pts []).
+Proof. exact vec_distance_pointwise_lemma. Qed.
+
+Theorem vec_cost_pointwise : forall (Ops : NumOps) ds inverted k dz, (k < length ds)%nat ->
+    nth k (vec_calculate_cost Ops ds inverted) dz = point_calculate_cost Ops (nth k ds dz) inverted.
+Proof. exact vec_cost_pointwise_lemma. Qed.
+
 Theorem vec_filter_equivariant : forall (Ops : NumOps) (wp wv : T Ops) (d : kstate Ops) p sts ops,
     vops_wf Ops (length sts) ops -> (forall i, In i p -> (i < length sts)%nat) ->
     vec_run Ops wp wv (reindex d p sts) (map (reindex_op Ops p) ops)
